@@ -102,8 +102,7 @@ def scenarios(ctx):
                 continue
             init = CONNECTED + ((('setwin', 0, win0),) if win0 != 1 else ())
             out.append(Std('%s-w%d' % (profile, win0), profile=profile, init=init,
-                           budgets=dict(pub=3 if q else 4, ack=3 if q else 5, dack=1 if q else 2, stray=1, setwin=1,
-                                        tick=1 if q else 2),
+                           budgets=dict(pub=3, ack=3 if q else 4, dack=1, stray=1, setwin=1, tick=1 if q else 2),
                            windows=(1, 2, 3), pub_qos=(0, 1, 2)))
     out.append(Std('pub-q2-deep', profile='pub', init=CONNECTED, pub_qos=(2,),
                    budgets=dict(pub=1 if q else 2, ack=3, dack=1, tick=3 if q else 4)))
